@@ -697,11 +697,33 @@ func checkFailCausesMode(c *core.Ctx, l *core.Ledger, protocolOnly bool) {
 		_, both := other[k]
 		ok := known[k] || both
 		if !ok && !protocolOnly && side == "stream" {
-			// every site of the class lies in a function the random-access reader reaches as well
-			valueLayer := layerFuncs(c, "reader", "Reader")
+			// every site of the class lies in a parameterless primitive (it reads one fixed element of the grammar —
+			// a field header, a list header — the same way in every context) that the random-access reader calls
+			// directly for that element too. A type-dispatched function (Skip) is not such a primitive: the two
+			// decoders reach it for different sets of values.
+			valueOwn := map[*ssa.Function]bool{}
+			streamLayer := layerFuncs(c, "StreamReader")
+			for f := range layerFuncs(c, "reader", "Reader") {
+				if !streamLayer[f] {
+					valueOwn[f] = true
+				}
+			}
 			shared := len(sites) > 0
 			for _, p := range sites {
-				if f := originFunc[p]; f == nil || !valueLayer[f] {
+				f := originFunc[p]
+				if f == nil || len(f.Params) != 1 {
+					shared = false
+					continue
+				}
+				called := false
+				for vf := range valueOwn {
+					core.Instrs(vf, func(in ssa.Instruction) {
+						if call, isC := in.(ssa.CallInstruction); isC && call.Common().StaticCallee() == f {
+							called = true
+						}
+					})
+				}
+				if !called {
 					shared = false
 				}
 			}
